@@ -32,20 +32,41 @@ def main():
             confirmed = json.load(open(os.path.join(p, "confirm.json"))).get("confirmed")
         except Exception:
             pass
-        rows.append({"id": d, "property": prop, "what": what, "runs": per, "confirmed": confirmed,
+        rows.append({"id": d, "property": prop, "what": what, "runs": per, "confirmed": confirmed, "judged": meta.get("judged"),
                      "caught_now": any(v[-1] == 1 for v in per.values())})
     if "--json" in sys.argv:
         json.dump(rows, sys.stdout, indent=1)
         return
-    print("| change | property | what was changed | check: exit codes of successive runs |")
+    if "--design" in sys.argv:
+        # rewrite the table between the markers in DESIGN.md
+        import io, contextlib
+        buf = io.StringIO()
+        with contextlib.redirect_stdout(buf):
+            table(rows)
+        dp = os.path.join(ROOT, "..", "DESIGN.md")
+        d = open(dp).read()
+        a = d.index("<!-- MATRIX:BEGIN")
+        a = d.index("\n", a) + 1
+        b = d.index("<!-- MATRIX:END -->")
+        open(dp, "w").write(d[:a] + buf.getvalue() + d[b:])
+        return
+    table(rows)
+
+
+def table(rows):
+    print("| change | property | what was changed | check: exit codes of successive runs (0 missed, 1 VIOLATION, 2 inconclusive) |")
     print("|---|---|---|---|")
     for r in rows:
         runs = "; ".join("%s: %s" % (c, "→".join(str(x) for x in v)) for c, v in sorted(r["runs"].items())) or "(not run)"
+        if r.get("judged"):
+            runs += " — " + r["judged"] + " (silent by design, see meta.json)"
         print("| `%s` | %s | %s | %s |" % (r["id"], r["property"], r["what"][:150], runs))
-    n = len(rows)
-    missed = [r["id"] for r in rows if not r["caught_now"]]
+    scope = [r for r in rows if not r.get("judged")]
+    n = len(scope)
+    missed = [r["id"] for r in scope if not r["caught_now"]]
     print()
-    print("%d changes; a check reports a VIOLATION in its latest run for %d; not (yet) caught: %s" % (n, n - len(missed), ", ".join(missed) or "none"))
+    print("%d changes that break a property as stated; a check reports a VIOLATION in its latest run for %d; not caught: %s. %d further change(s) kept for the record that do not: %s" % (
+        n, n - len(missed), ", ".join(missed) or "none", len(rows) - n, ", ".join(r["id"] for r in rows if r.get("judged")) or "none"))
 
 if __name__ == "__main__":
     main()
